@@ -138,11 +138,17 @@ pub struct ScriptedUv {
     pub log: Arc<Mutex<Vec<UvCall>>>,
     /// run once, by the next check_user call (something that happens while the user is being asked)
     pub hook: Arc<Mutex<Option<Box<dyn FnOnce() + Send>>>>,
+    /// while set, a consenting user gives exactly what the ceremony asks for (presence / verification) instead of the
+    /// script's fixed outcome; error outcomes of the script still apply
+    pub as_asked: Arc<std::sync::atomic::AtomicBool>,
 }
 
 impl ScriptedUv {
     pub fn new(script: UvScript) -> Self {
-        ScriptedUv { script: Arc::new(Mutex::new(script)), log: Arc::new(Mutex::new(vec![])), hook: Arc::new(Mutex::new(None)) }
+        ScriptedUv { script: Arc::new(Mutex::new(script)), log: Arc::new(Mutex::new(vec![])), hook: Arc::new(Mutex::new(None)), as_asked: Arc::new(std::sync::atomic::AtomicBool::new(false)) }
+    }
+    pub fn set_as_asked(&self, on: bool) {
+        self.as_asked.store(on, std::sync::atomic::Ordering::SeqCst);
     }
     pub fn on_next_check(&self, f: impl FnOnce() + Send + 'static) {
         *self.hook.lock().unwrap() = Some(Box::new(f));
@@ -168,6 +174,7 @@ impl UserValidationMethod for ScriptedUv {
         }
         YieldN(script.yields).await;
         match script.outcome {
+            Ok(_) if self.as_asked.load(std::sync::atomic::Ordering::SeqCst) => Ok(UserCheck { presence, verification }),
             Ok((p, v)) => Ok(UserCheck { presence: p, verification: v }),
             Err(b) => Err(Ctap2Error::try_from(b).unwrap_or(Ctap2Error::OperationDenied)),
         }
@@ -245,6 +252,11 @@ pub struct RefStoreInner {
     pub zero_as_ctap1_success: bool,
     /// a lagging lookup index: lookups only see the first n records (what was held when the lag was set)
     pub lag: Option<usize>,
+    /// a store that does not persist signature counters (as the Passkey::counter documentation recommends for synced
+    /// credentials): records are kept with counter None
+    pub strip_counters: bool,
+    /// the next save_credential call is refused with this status byte (one shot)
+    pub fail_next_save: Option<u8>,
 }
 
 /// Reference credential store with the documented contract semantics:
@@ -254,7 +266,7 @@ pub struct RefStore(pub Arc<Mutex<RefStoreInner>>);
 
 impl RefStore {
     pub fn new(disc: Disc) -> Self {
-        RefStore(Arc::new(Mutex::new(RefStoreInner { creds: vec![], log: vec![], disc, faults: BTreeMap::new(), fallible_calls: 0, yields: 0, version: 0, empty_ok: false, zero_as_ctap1_success: false, lag: None })))
+        RefStore(Arc::new(Mutex::new(RefStoreInner { creds: vec![], log: vec![], disc, faults: BTreeMap::new(), fallible_calls: 0, yields: 0, version: 0, empty_ok: false, zero_as_ctap1_success: false, lag: None, strip_counters: false, fail_next_save: None })))
     }
     pub fn with(disc: Disc, creds: Vec<Passkey>) -> Self {
         let s = Self::new(disc);
@@ -280,6 +292,12 @@ impl RefStore {
     pub fn set_lagging(&self, on: bool) {
         let mut g = self.0.lock().unwrap();
         g.lag = on.then_some(g.creds.len());
+    }
+    pub fn set_fail_next_save(&self, code: Option<u8>) {
+        self.0.lock().unwrap().fail_next_save = code;
+    }
+    pub fn set_strip_counters(&self, on: bool) {
+        self.0.lock().unwrap().strip_counters = on;
     }
     pub fn set_empty_ok(&self, on: bool) {
         self.0.lock().unwrap().empty_ok = on;
@@ -356,6 +374,7 @@ impl CredentialStore for RefStore {
         YieldN(self.yields()).await;
         let fault = self.fault();
         let mut g = self.0.lock().unwrap();
+        let fault = fault.or(g.fail_next_save.take());
         g.log.push(StoreCall::Save {
             cred_id: cred.credential_id.to_vec(),
             cred_rp: cred.rp_id.clone(),
@@ -375,6 +394,10 @@ impl CredentialStore for RefStore {
         g.version += 1;
         // a record with the same (RP ID, credential id) is replaced, like in a keyed store
         g.creds.retain(|c| !(c.credential_id == cred.credential_id && c.rp_id == cred.rp_id));
+        let mut cred = cred;
+        if g.strip_counters {
+            cred.counter = None;
+        }
         g.creds.push(cred);
         Ok(())
     }
